@@ -128,6 +128,40 @@ def run(chk, replay=None):
             chk.fail('roundtrip-append', {'s': enc_str(s), 'prefill': enc_str(pf)}, 'extractText gave %r, expected %r' % (got, pf + s))
         if not clean_nodes(new):
             chk.fail('raw-whitespace', {'s': enc_str(s), 'prefill': enc_str(pf)}, 'inserted nodes %s' % dump_nodes(new))
+    # ---- histories: calls follow one another in one process, some of them refused half-way (an element that takes no text).
+    # Every call is independent in the model (a fresh encoder per call): a successful call must insert exactly `enc [] s`
+    # whatever happened before it.
+    from odf.text import List as TList, Span
+    from odf.element import IllegalText, IllegalChild
+    rng = chk.rng
+    pool = [s for s, k in cases if k == 'random'][:400] + [u'a  b', u' x', u'q\t', u'end ']
+    for h in range(150 if chk.tier == 'quick' else 1500):
+        steps = []
+        for _ in range(rng.randint(2, 5)):
+            s = rng.choice(pool)
+            refuse = rng.random() < 0.35
+            steps.append((s, refuse))
+            el = TList() if refuse else rng.choice([P, Span])()
+            k = len(el.childNodes)
+            try:
+                teletype.addTextToElement(el, s)
+                raised = False
+            except (IllegalText, IllegalChild):
+                raised = True
+            chk.count('history_calls')
+            if raised:
+                continue
+            new = el.childNodes[k:]
+            got = teletype.extractText(el)
+            ans = drv.ask('enc ' + enc_str(s))
+            impl = 'ok ' + ' '.join(dump_nodes(new))
+            chk.corr()
+            if impl.strip() != ans.strip():
+                chk.corr_diff({'history': [(enc_str(a), b) for a, b in steps]}, impl, ans, 'nodes appended by the last call of a history')
+            if got != s or not clean_nodes(new):
+                chk.fail('roundtrip-after-history', {'history': [(enc_str(a), b) for a, b in steps]},
+                         'after %d earlier calls (some refused) extractText gave %r for %r' % (len(steps) - 1, got, s))
+        chk.case(('history', h), sample={'history': [(a, b) for a, b in steps]} if h < 2 else None)
     # ---- after save and load (batched: one paragraph per string)
     B = 400
     for off in range(0, len(cases), B):
